@@ -1187,4 +1187,474 @@ theorem flagsAgree_typing (o : Opts) (ho : o.unionOp = false) : ∀ t, wfTree t 
       simp only [flagsAgreeL, Bool.and_eq_true]
       exact ⟨ihl c (List.mem_cons_self ..) hwl.1, ihc (fun x hx => ihl x (List.mem_cons_of_mem _ hx)) hwl.2⟩
 
+
+/-! ### the operator spelling: brackets survive the `|` surgery untouched -/
+
+/-- closed: from any depth the text returns to that depth without ever closing too much -/
+def Dyck (s : Str) : Prop := ∀ d, scan d s = some d
+
+theorem Dyck_bracketFree (s : Str) (h : bracketFree s = true) : Dyck s := fun d => scan_bracketFree s d h
+
+theorem Dyck_append {a b : Str} (ha : Dyck a) (hb : Dyck b) : Dyck (a ++ b) := by
+  intro d; rw [scan_append, ha d]; exact hb d
+
+theorem Dyck_wrap (name s : Str) (hn : bracketFree name = true) (hs : Dyck s) : Dyck (name ++ ['['] ++ s ++ [']']) := by
+  intro d
+  rw [List.append_assoc, List.append_assoc, scan_append, scan_bracketFree name d hn]
+  simp only [Option.bind_some, List.singleton_append, scan, if_true]
+  rw [scan_append, hs (d + 1)]
+  simp [scan]
+
+theorem Dyck_joinSep (sep : Str) (hsep : bracketFree sep = true) : ∀ (ps : List Str), (∀ p ∈ ps, Dyck p) → Dyck (joinSep sep ps) := by
+  intro ps
+  induction ps with
+  | nil => intro _ d; rfl
+  | cons p ps ih =>
+    intro h
+    cases ps with
+    | nil => simpa [joinSep] using h p (List.mem_cons_self ..)
+    | cons q r =>
+      rw [joinSep_cons_cons]
+      exact Dyck_append (h p (List.mem_cons_self ..)) (Dyck_append (Dyck_bracketFree sep hsep) (ih (fun x hx => h x (List.mem_cons_of_mem _ hx))))
+
+def isBr (c : Char) : Bool := c == '[' || c == ']'
+/-- the bracket subsequence -/
+def br (s : Str) : Str := s.filter isBr
+
+theorem scan_br : ∀ (s : Str) (d : Nat), scan d s = scan d (br s) := by
+  intro s
+  induction s with
+  | nil => intro d; rfl
+  | cons c cs ih =>
+    intro d
+    by_cases h1 : c = '['
+    · subst h1; simp only [br, isBr, List.filter, scan, if_true]; exact ih _
+    · by_cases h2 : c = ']'
+      · subst h2
+        simp only [br, isBr, List.filter, scan, show (']' : Char) ≠ '[' by decide, if_false, if_true]
+        cases d with
+        | zero => rfl
+        | succ d' => exact ih _
+      · have : isBr c = false := by simp [isBr, h1, h2]
+        simp only [br, List.filter, this, scan, h1, h2, if_false]
+        exact ih _
+
+theorem Dyck_of_br_eq {s s' : Str} (h : br s' = br s) (hs : Dyck s) : Dyck s' := by
+  intro d; rw [scan_br, h, ← scan_br]; exact hs d
+
+theorem br_append (a b : Str) : br (a ++ b) = br a ++ br b := by simp [br]
+
+theorem br_joinSep (sep : Str) (hsep : br sep = []) : ∀ (ps : List Str), br (joinSep sep ps) = ps.flatMap br := by
+  intro ps
+  induction ps with
+  | nil => rfl
+  | cons p ps ih =>
+    cases ps with
+    | nil => simp [joinSep]
+    | cons q r => rw [joinSep_cons_cons, br_append, br_append, hsep, ih]; simp
+
+theorem isBr_space (c : Char) (h : isSpace c = true) : isBr c = false := by
+  cases hb : isBr c with
+  | false => rfl
+  | true =>
+    simp only [isBr, Bool.or_eq_true, beq_iff_eq] at hb
+    rcases hb with rfl | rfl <;> simp [isSpace] at h
+
+theorem br_spaces (ws : Str) (h : ws.all isSpace = true) : br ws = [] := by
+  induction ws with
+  | nil => rfl
+  | cons c cs ih =>
+    simp only [List.all_cons, Bool.and_eq_true] at h
+    have := ih h.2
+    simp only [br] at this ⊢
+    simp [List.filter, isBr_space c h.1, this]
+
+theorem br_splitPipeAux : ∀ (s : Str) (skip : Bool) (cur ws : Str), ws.all isSpace = true →
+    (skip = true → cur = [] ∧ ws = []) →
+    (splitPipeAux s skip cur ws).flatMap br = br cur ++ br s := by
+  intro s
+  induction s with
+  | nil => intro skip cur ws hws _; simp [splitPipeAux, br_append, br_spaces ws hws]; simp [br]
+  | cons c cs ih =>
+    intro skip cur ws hws hskip
+    simp only [splitPipeAux]
+    split
+    · rename_i hc; subst hc
+      simp only [List.flatMap_cons]
+      rw [ih true [] [] rfl (fun _ => ⟨rfl, rfl⟩)]
+      simp [br, List.filter, isBr]
+    · rename_i hne
+      split
+      · rename_i hsp
+        have hb : br (c :: cs) = br cs := by simp [br, List.filter, isBr_space c hsp]
+        split
+        · rename_i hsk
+          obtain ⟨rfl, rfl⟩ := hskip hsk
+          rw [ih true [] [] rfl (fun _ => ⟨rfl, rfl⟩), hb]
+        · rename_i hsk
+          rw [ih false cur (ws ++ [c]) (by simp [hws, hsp]) (by intro h; cases h), hb]
+      · rw [ih false (cur ++ ws ++ [c]) [] rfl (by intro h; cases h)]
+        simp only [br_append, br_spaces ws hws, List.append_nil, List.append_assoc]
+        cases hb : isBr c <;> simp [br, List.filter, hb]
+
+theorem br_splitPipe (s : Str) : (splitPipe s).flatMap br = br s := by
+  unfold splitPipe
+  rw [br_splitPipeAux s false [] [] rfl (by intro h; cases h)]; simp [br]
+
+theorem flatMap_br_filter_none (ps : List Str) : (ps.filter (· ≠ sNone)).flatMap br = ps.flatMap br := by
+  induction ps with
+  | nil => rfl
+  | cons p ps ih =>
+    by_cases h : p = sNone
+    · subst h
+      have e : br sNone = [] := by decide
+      simp only [List.filter, ne_eq, not_true_eq_false, decide_false, List.flatMap_cons, e, List.nil_append]
+      exact ih
+    · simp only [List.filter, ne_eq, h, not_false_eq_true, decide_true, List.flatMap_cons]
+      rw [ih]
+
+/-- the whole surgery of the operator spelling leaves the bracket subsequence as it was -/
+theorem br_removeNoneB (s : Str) : br (removeNoneB s) = br s := by
+  unfold removeNoneB
+  split
+  · have h1 := br_splitPipe s
+    have h2 := flatMap_br_filter_none (splitPipe s)
+    split
+    · rename_i hnil
+      rw [hnil] at h2
+      simp only [List.flatMap_nil] at h2
+      rw [← h1, ← h2]; decide
+    · rw [br_joinSep sPipe (by decide), h2, h1]
+  · rfl
+
+theorem Dyck_removeNoneB {s : Str} (h : Dyck s) : Dyck (removeNoneB s) := Dyck_of_br_eq (br_removeNoneB s) h
+
+theorem Dyck_none : Dyck sNone := Dyck_bracketFree _ (by decide)
+
+theorem Dyck_getOptional {s : Str} (h : Dyck s) : Dyck (getOptionalType true s) := by
+  unfold getOptionalType
+  simp only [removeNone, if_true]
+  split
+  · exact Dyck_none
+  · exact Dyck_append (Dyck_append (Dyck_removeNoneB h) (Dyck_bracketFree _ (by decide))) Dyck_none
+
+theorem Dyck_unionLoop : ∀ (hs acc : List Str) (opt : Bool), (∀ h ∈ hs, Dyck h) → (∀ h ∈ acc, Dyck h) →
+    ∀ d ∈ (unionLoop true hs acc opt).1, Dyck d := by
+  intro hs
+  induction hs with
+  | nil => intro acc opt _ ha; simpa [unionLoop] using ha
+  | cons h hs ih =>
+    intro acc opt hh ha
+    simp only [unionLoop]
+    have hrest := fun x hx => hh x (List.mem_cons_of_mem _ hx)
+    split
+    · exact ih acc opt hrest ha
+    · split
+      · exact ih acc true hrest ha
+      · apply ih _ _ hrest
+        intro x hx
+        simp only [List.mem_append, List.mem_singleton] at hx
+        rcases hx with hx | rfl
+        · exact ha x hx
+        · simp only [removeNone, if_true]; exact Dyck_removeNoneB (hh h (List.mem_cons_self ..))
+
+/-- no name of the node contains a bracket -/
+def bfAttrs (a : Attrs) : Bool :=
+  bracketFree a.ty && (match a.ref with | some r => bracketFree r.shortName | none => true) &&
+  a.literals.all bracketFree
+
+mutual
+def bfTree : DT → Bool
+  | .mk a key kids => bfAttrs a && bfTreeO key && bfTreeL kids
+def bfTreeO : Option DT → Bool
+  | none => true
+  | some k => bfTree k
+def bfTreeL : List DT → Bool
+  | [] => true
+  | t :: ts => bfTree t && bfTreeL ts
+end
+
+theorem Dyck_base (o : Opts) (ho : o.unionOp = true) (a : Attrs) (kidHints : List Str) (ha : bfAttrs a = true)
+    (hk : ∀ h ∈ kidHints, Dyck h) : Dyck (baseOf o a kidHints).1 := by
+  simp only [bfAttrs, Bool.and_eq_true, List.all_eq_true] at ha
+  obtain ⟨⟨hty, href⟩, hlit⟩ := ha
+  unfold baseOf
+  split
+  · exact Dyck_bracketFree _ hty
+  · match kidHints, hk with
+    | k1 :: k2 :: ks, hk =>
+      simp only [ho]
+      have hl := Dyck_unionLoop (k1 :: k2 :: ks) [] a.isOptional hk (by intro h hh; cases hh)
+      split
+      · rename_i d hd; exact hl d (by rw [hd]; simp)
+      · simp only [if_true]; exact Dyck_joinSep sPipe (by decide) _ hl
+    | [k], hk => exact hk k (by simp)
+    | [], _ =>
+      simp only []
+      split
+      · have : Dyck (joinSep sComma a.literals) := Dyck_joinSep sComma (by decide) _ (fun p hp => Dyck_bracketFree p (hlit p hp))
+        have := Dyck_wrap ['L', 'i', 't', 'e', 'r', 'a', 'l'] _ (by decide) this
+        simpa [sLiteralPrefix] using this
+      · split
+        · rename_i r hr; rw [hr] at href; exact Dyck_bracketFree _ href
+        · exact Dyck_bracketFree _ rfl
+
+theorem bf_names (o : Opts) : bracketFree (listName o) = true ∧ bracketFree (setName o) = true ∧ bracketFree (dictName o) = true := by
+  obtain ⟨u, s, g⟩ := o
+  cases u <;> cases s <;> cases g <;> decide
+
+theorem Dyck_wrap1 (name b : Str) (hn : bracketFree name = true) (hb : Dyck b) : Dyck (wrap1 name b) := by
+  unfold wrap1; split
+  · exact Dyck_bracketFree _ hn
+  · exact Dyck_wrap name b hn hb
+
+theorem Dyck_container (o : Opts) (a : Attrs) (keyHint : Option Str) (b : Str) (hb : Dyck b)
+    (hkey : ∀ k, keyHint = some k → Dyck k) : Dyck (containerOf o a keyHint b) := by
+  obtain ⟨hl, hs, hd⟩ := bf_names o
+  unfold containerOf
+  split
+  · exact Dyck_wrap1 _ b hl hb
+  · split
+    · exact Dyck_wrap1 _ b hs hb
+    · split
+      · split
+        · have hk : Dyck (keyHint.getD sStr) := by
+            cases keyHint with
+            | none => exact Dyck_bracketFree _ (by decide)
+            | some k => exact hkey k rfl
+          have hv : Dyck (if b = [] then sAny else b) := by
+            split
+            · exact Dyck_bracketFree _ (by decide)
+            · exact hb
+          have := Dyck_wrap (dictName o) _ hd (Dyck_append hk (Dyck_append (Dyck_bracketFree sComma (by decide)) hv))
+          simpa [List.append_assoc] using this
+        · exact Dyck_bracketFree _ hd
+      · exact hb
+
+theorem Dyck_finish (ty : Str) (opt : Bool) (h : Dyck ty) : Dyck (finishOf true ty opt).1 := by
+  unfold finishOf; split
+  · exact Dyck_getOptional h
+  · exact h
+
+/-- operator spelling: brackets are balanced for EVERY tree whose names contain no bracket
+(commas, pipes and blanks in names and literal values do not matter here) -/
+theorem Dyck_typeHint_operator (o : Opts) (ho : o.unionOp = true) : ∀ t, bfTree t = true → Dyck (typeHint o t).1 := by
+  apply DT.ind
+  intro a key kids ihk ihl hw
+  simp only [bfTree, Bool.and_eq_true] at hw
+  obtain ⟨⟨ha, hwk⟩, hwl⟩ := hw
+  have hkids : ∀ h ∈ typeHintL o kids, Dyck h := by
+    clear ha hwk ihk
+    induction kids with
+    | nil => intro h hh; simp [typeHintL] at hh
+    | cons c cs ihc =>
+      simp only [bfTreeL, Bool.and_eq_true] at hwl
+      intro h hh
+      simp only [typeHintL, List.mem_cons] at hh
+      rcases hh with rfl | hh
+      · exact ihl c (List.mem_cons_self ..) hwl.1
+      · exact ihc (fun x hx => ihl x (List.mem_cons_of_mem _ hx)) hwl.2 h hh
+  have hkey : ∀ k, typeHintO o key = some k → Dyck k := by
+    intro k hk
+    cases key with
+    | none => simp [typeHintO] at hk
+    | some kk =>
+      simp only [typeHintO, Option.some.injEq] at hk
+      subst hk
+      simp only [bfTreeO] at hwk
+      exact ihk kk rfl hwk
+  simp only [typeHint, hintNode, ho]
+  exact Dyck_finish _ _ (Dyck_container o a _ _ (Dyck_base o ho a _ ha hkids) hkey)
+
+theorem hint_balanced_operator (o : Opts) (ho : o.unionOp = true) (t : DT) (hw : bfTree t = true) :
+    balanced (typeHint o t).1 = true := by
+  unfold balanced
+  rw [balancedFrom_eq_scan, Dyck_typeHint_operator o ho t hw 0]; rfl
+
+
+/-! ### what making a type optional does to its alternatives (on expressions) -/
+
+theorem altsL_append (a b : List TExpr) : altsL (a ++ b) = altsL a ++ altsL b := by
+  induction a with
+  | nil => simp [altsL]
+  | cons x l ih => simp [altsL, ih]
+
+theorem alts_none : alts eNone = [] := by simp [eNone, alts]
+theorem hasNone_none : hasNone eNone = true := by simp [eNone, hasNone]
+
+theorem alts_isNoneE (e : TExpr) (h : isNoneE e = true) : alts e = [] := by
+  cases e with
+  | atom s =>
+    simp only [isNoneE, decide_eq_true_eq] at h
+    subst h; simp [alts, sNone, Dcg.Sem.Typing.sNone]
+  | app hd args => simp [isNoneE] at h
+  | bor args => simp [isNoneE] at h
+
+theorem alts_mkUnionE (ps : List TExpr) : alts (mkUnionE ps) = altsL ps := by
+  match ps with
+  | [] => simp [mkUnionE, alts_none, altsL]
+  | [p] => simp [mkUnionE, altsL]
+  | a :: b :: r => simp [mkUnionE, alts]
+
+theorem alts_rmU : ∀ e, alts (rmU e) = alts e := by
+  apply TExpr.ind
+  · intro s; simp [rmU]
+  · intro h args ih
+    simp only [rmU]
+    split
+    · rename_i hu; subst hu
+      rw [alts_mkUnionE]
+      simp only [alts, or_true, if_true]
+      induction args with
+      | nil => rfl
+      | cons a l ihl =>
+        simp only [rmUL]
+        split
+        · rename_i hn
+          simp only [altsL, alts_isNoneE a hn, List.nil_append]
+          exact ihl (fun x hx => ih x (List.mem_cons_of_mem _ hx))
+        · simp only [altsL, ih a (List.mem_cons_self ..)]
+          rw [ihl (fun x hx => ih x (List.mem_cons_of_mem _ hx))]
+    · rfl
+  · intro args _; simp [rmU]
+
+theorem alts_mkBorE (ps : List TExpr) : alts (mkBorE ps) = altsL ps := by
+  match ps with
+  | [] => simp [mkBorE, alts_none, altsL]
+  | [p] => simp [mkBorE, altsL]
+  | a :: b :: r => simp [mkBorE, alts]
+
+theorem altsL_filter_notNone (l : List TExpr) : altsL (l.filter (fun e => !isNoneE e)) = altsL l := by
+  induction l with
+  | nil => rfl
+  | cons a l ih =>
+    by_cases h : isNoneE a = true
+    · simp [List.filter, h, altsL, alts_isNoneE a h, ih]
+    · simp [List.filter, h, altsL, ih]
+
+theorem alts_rmB (e : TExpr) : alts (rmB e) = alts e := by
+  cases e with
+  | atom s => rfl
+  | app h args => rfl
+  | bor args => simp only [rmB, alts_mkBorE, altsL_filter_notNone, alts]
+
+/-- removing `None` never touches another alternative -/
+theorem alts_rmE (u : Bool) (e : TExpr) : alts (rmE u e) = alts e := by
+  unfold rmE; split
+  · exact alts_rmB e
+  · exact alts_rmU e
+
+theorem alts_borArgs (e : TExpr) : altsL (borArgs e) = alts e := by
+  cases e with
+  | atom s => simp [borArgs, altsL]
+  | app h args => simp [borArgs, altsL]
+  | bor args => simp [borArgs, alts]
+
+/-- `optional_keeps_alternatives` on expressions: `get_optional_type` adds `None` and keeps every
+other alternative, in both spellings (the only thing it may drop is the empty hint) -/
+theorem alts_getOptionalE (u : Bool) (e : TExpr) (hne : alts e ≠ [] → print (rmE u e) ≠ [] ∧ print (rmE u e) ≠ sNone) :
+    alts (getOptionalE u e) = alts e ∧ hasNone (getOptionalE u e) = true := by
+  unfold getOptionalE
+  simp only []
+  split
+  · rename_i htest
+    refine ⟨?_, hasNone_none⟩
+    rw [alts_none]
+    by_cases h : alts e = []
+    · exact h.symm
+    · have := hne h
+      rcases htest with h1 | h1
+      · exact absurd h1 this.1
+      · exact absurd h1 this.2
+  · split
+    · -- operator spelling: t | None, flattened
+      have hflat : ∀ (t : TExpr), alts (borFlat [t, eNone]) = alts t ∧ hasNone (borFlat [t, eNone]) = true := by
+        intro t
+        unfold borFlat
+        simp only [List.flatMap_cons, List.flatMap_nil, List.append_nil]
+        have hb : borArgs eNone = [eNone] := by simp [eNone, borArgs]
+        rw [hb]
+        generalize hl : borArgs t = l
+        have hal : altsL l = alts t := by rw [← hl]; exact alts_borArgs t
+        match l, hal with
+        | [], hal =>
+          simp only [List.nil_append, borFlat.mkBorE']
+          exact ⟨by rw [alts_none]; simpa [altsL] using hal, hasNone_none⟩
+        | x :: r, hal =>
+          have : borFlat.mkBorE' ((x :: r) ++ [eNone]) = .bor ((x :: r) ++ [eNone]) := by
+            cases r <;> simp [borFlat.mkBorE']
+          rw [this]
+          refine ⟨?_, ?_⟩
+          · simp only [alts, altsL_append, altsL, alts_none, List.append_nil]; exact hal
+          · simp only [hasNone]
+            have : ∀ (l : List TExpr), hasNoneL (l ++ [eNone]) = true := by
+              intro l; induction l with
+              | nil => simp [hasNoneL, hasNone_none]
+              | cons a l ih => simp [hasNoneL, ih]
+            exact this _
+      obtain ⟨h1, h2⟩ := hflat (rmE u e)
+      exact ⟨by rw [h1, alts_rmE], h2⟩
+    · refine ⟨?_, by simp [hasNone]⟩
+      simp only [alts, true_or, if_true, altsL, List.append_nil]
+      exact alts_rmE u e
+
+
+theorem getOptionalType_typing (e : TExpr) (hw : wfU e = true) :
+    getOptionalType false (print e) = print (getOptionalE false e) ∧ wfU (getOptionalE false e) = true := by
+  have h := finish_typing e true hw
+  by_cases ha : print e = sAny
+  · -- `Any` is a plain atom: the surgery leaves it, the wrap is Optional[Any]
+    unfold getOptionalType getOptionalE
+    have hr : removeNone false (print e) = print (rmE false e) := by
+      simp only [removeNone, rmE, Bool.false_eq_true, if_false]; exact removeNoneU_print e hw
+    have hwr : wfU (rmE false e) = true := by
+      simp only [rmE, Bool.false_eq_true, if_false]; exact wfU_rmU e hw
+    simp only [hr, Bool.false_eq_true, if_false]
+    split
+    · exact ⟨by simp [eNone, print_atom, Dcg.Sem.Typing.sNone, sNone], by decide⟩
+    · refine ⟨?_, ?_⟩
+      · rw [print_app, printL_single]; simp [sOptionalPrefix, sOptional]
+      · simp only [wfU, wfUL, Bool.and_eq_true, Bool.and_true]
+        exact ⟨⟨by decide, by simp⟩, hwr⟩
+  · simp only [finishOf, finishE, ha, ne_eq, not_false_eq_true, and_self, if_true] at h
+    exact ⟨by simpa using congrArg Prod.fst h.1, h.2⟩
+
+theorem bfTree_of_wfTree : ∀ t, wfTree t = true → bfTree t = true := by
+  have hbf : ∀ s, plainTok s = true → bracketFree s = true := by
+    intro s h
+    have := (plainTok_parts s h).2.1
+    simp only [bracketFree, List.all_eq_true, Bool.and_eq_true, bne_iff_ne] at this ⊢
+    intro c hc
+    have := this c hc
+    simp only [special, Bool.not_eq_true', Bool.or_eq_false_iff, decide_eq_false_iff_not] at this
+    exact ⟨this.1.1.1, this.1.1.2⟩
+  apply DT.ind
+  intro a key kids ihk ihl hw
+  simp only [wfTree, Bool.and_eq_true] at hw
+  obtain ⟨⟨ha, hwk⟩, hwl⟩ := hw
+  simp only [bfTree, Bool.and_eq_true]
+  refine ⟨⟨?_, ?_⟩, ?_⟩
+  · simp only [wfAttrs, Bool.and_eq_true, Bool.or_eq_true, List.all_eq_true] at ha
+    obtain ⟨⟨⟨hty, href⟩, hlit⟩, _⟩ := ha
+    simp only [bfAttrs, Bool.and_eq_true, List.all_eq_true]
+    refine ⟨⟨?_, ?_⟩, ?_⟩
+    · rcases hty with h | h
+      · have : a.ty = [] := by simpa using h
+        rw [this]; rfl
+      · exact hbf _ (plainName_plainTok _ h)
+    · cases hr : a.ref with
+      | none => rfl
+      | some r => rw [hr] at href; exact hbf _ (plainName_plainTok _ href)
+    · intro x hx; exact hbf _ (plainToken_plainTok _ (hlit x hx))
+  · cases key with
+    | none => rfl
+    | some k => simp only [bfTreeO]; simp only [wfTreeO] at hwk; exact ihk k rfl hwk
+  · clear ha hwk ihk
+    induction kids with
+    | nil => rfl
+    | cons c cs ihc =>
+      simp only [wfTreeL, Bool.and_eq_true] at hwl
+      simp only [bfTreeL, Bool.and_eq_true]
+      exact ⟨ihl c (List.mem_cons_self ..) hwl.1, ihc (fun x hx => ihl x (List.mem_cons_of_mem _ hx)) hwl.2⟩
+
 end Dcg.Proofs.Types
